@@ -99,36 +99,38 @@ func builders() []builder {
 				c := aeadcase.Draw(rt)
 				a, desc = c.P, c.String()
 			}
-			pt, ad := shared(gen.Bytes(rt, "pt", 300)), shared(gen.Bytes(rt, "ad", 60))
-			wantPT := append([]byte{}, pt...)
-			ct := tk.Must(a.Encrypt(pt, ad))
-			ctS := shared(ct)
-			return desc, []op{
-				{"Encrypt+Decrypt", func() error {
-					c, err := a.Encrypt(pt, ad)
-					if err != nil {
-						return err
-					}
-					p, err := a.Decrypt(c, ad)
-					if err != nil || !bytes.Equal(p, wantPT) {
-						return fmt.Errorf("decryption of a concurrently produced ciphertext: %x, %v", p, err)
-					}
-					return nil
-				}},
-				{"Decrypt", func() error {
-					p, err := a.Decrypt(ctS, ad)
-					if err != nil || !bytes.Equal(p, wantPT) {
-						return fmt.Errorf("Decrypt gave %x, %v", p, err)
-					}
-					return nil
-				}},
-				{"Decrypt-bad", func() error {
-					if _, err := a.Decrypt(ctS[:len(ctS)-1], ad); err == nil {
-						return fmt.Errorf("truncated ciphertext accepted")
-					}
-					return nil
-				}},
-			}
+			return desc, twice(func(tag string) []op {
+				pt, ad := shared(gen.Bytes(rt, "pt", 300)), shared(gen.Bytes(rt, "ad", 60))
+				wantPT := append([]byte{}, pt...)
+				ct := tk.Must(a.Encrypt(pt, ad))
+				ctS := shared(ct)
+				return []op{
+					{"Encrypt+Decrypt", func() error {
+						c, err := a.Encrypt(pt, ad)
+						if err != nil {
+							return err
+						}
+						p, err := a.Decrypt(c, ad)
+						if err != nil || !bytes.Equal(p, wantPT) {
+							return fmt.Errorf("decryption of a concurrently produced ciphertext: %x, %v", p, err)
+						}
+						return nil
+					}},
+					{"Decrypt", func() error {
+						p, err := a.Decrypt(ctS, ad)
+						if err != nil || !bytes.Equal(p, wantPT) {
+							return fmt.Errorf("Decrypt gave %x, %v", p, err)
+						}
+						return nil
+					}},
+					{"Decrypt-bad", func() error {
+						if _, err := a.Decrypt(ctS[:len(ctS)-1], ad); err == nil {
+							return fmt.Errorf("truncated ciphertext accepted")
+						}
+						return nil
+					}},
+				}
+			})
 		}},
 		{"mac", func(rt *rapid.T) (string, []op) {
 			var h *keyset.Handle
@@ -141,18 +143,20 @@ func builders() []builder {
 				h, desc = tk.Must(keyset.NewHandle(kt)), fmt.Sprintf("MAC %s %v", kt.TypeUrl, kt.OutputPrefixType)
 			}
 			m := tk.Must(mac.New(h))
-			msg := shared(gen.Bytes(rt, "msg", 200))
-			want := tk.Must(m.ComputeMAC(msg))
-			return desc, []op{
-				{"ComputeMAC", func() error {
-					t, err := m.ComputeMAC(msg)
-					if err != nil || !bytes.Equal(t, want) {
-						return fmt.Errorf("ComputeMAC gave %x (%v), sequentially %x", t, err, want)
-					}
-					return nil
-				}},
-				{"VerifyMAC", func() error { return m.VerifyMAC(want, msg) }},
-			}
+			return desc, twice(func(tag string) []op {
+				msg := shared(gen.Bytes(rt, "msg", 200))
+				want := tk.Must(m.ComputeMAC(msg))
+				return []op{
+					{"ComputeMAC", func() error {
+						t, err := m.ComputeMAC(msg)
+						if err != nil || !bytes.Equal(t, want) {
+							return fmt.Errorf("ComputeMAC gave %x (%v), sequentially %x", t, err, want)
+						}
+						return nil
+					}},
+					{"VerifyMAC", func() error { return m.VerifyMAC(want, msg) }},
+				}
+			})
 		}},
 		{"daead", func(rt *rapid.T) (string, []op) {
 			var h *keyset.Handle
@@ -163,25 +167,27 @@ func builders() []builder {
 				h = tk.Must(keyset.NewHandle(withPrefix(daead.AESSIVKeyTemplate(), prefixTypeDraw(rt))))
 			}
 			d := tk.Must(daead.New(h))
-			pt, ad := shared(gen.Bytes(rt, "pt", 200)), shared(gen.Bytes(rt, "ad", 60))
-			wantPT := append([]byte{}, pt...)
-			want := tk.Must(d.EncryptDeterministically(pt, ad))
-			return desc, []op{
-				{"EncryptDeterministically", func() error {
-					c, err := d.EncryptDeterministically(pt, ad)
-					if err != nil || !bytes.Equal(c, want) {
-						return fmt.Errorf("deterministic ciphertext differs: %x (%v) vs %x", c, err, want)
-					}
-					return nil
-				}},
-				{"DecryptDeterministically", func() error {
-					p, err := d.DecryptDeterministically(want, ad)
-					if err != nil || !bytes.Equal(p, wantPT) {
-						return fmt.Errorf("decrypt gave %x, %v", p, err)
-					}
-					return nil
-				}},
-			}
+			return desc, twice(func(tag string) []op {
+				pt, ad := shared(gen.Bytes(rt, "pt", 200)), shared(gen.Bytes(rt, "ad", 60))
+				wantPT := append([]byte{}, pt...)
+				want := tk.Must(d.EncryptDeterministically(pt, ad))
+				return []op{
+					{"EncryptDeterministically", func() error {
+						c, err := d.EncryptDeterministically(pt, ad)
+						if err != nil || !bytes.Equal(c, want) {
+							return fmt.Errorf("deterministic ciphertext differs: %x (%v) vs %x", c, err, want)
+						}
+						return nil
+					}},
+					{"DecryptDeterministically", func() error {
+						p, err := d.DecryptDeterministically(want, ad)
+						if err != nil || !bytes.Equal(p, wantPT) {
+							return fmt.Errorf("decrypt gave %x, %v", p, err)
+						}
+						return nil
+					}},
+				}
+			})
 		}},
 		{"signature", func(rt *rapid.T) (string, []op) {
 			var h *keyset.Handle
@@ -195,24 +201,26 @@ func builders() []builder {
 			}
 			s := tk.Must(signature.NewSigner(h))
 			v := tk.Must(signature.NewVerifier(tk.Must(h.Public())))
-			msg := shared(gen.Bytes(rt, "msg", 200))
-			sig := tk.Must(s.Sign(msg))
-			return desc, []op{
-				{"Sign+Verify", func() error {
-					g, err := s.Sign(msg)
-					if err != nil {
-						return err
-					}
-					return v.Verify(g, msg)
-				}},
-				{"Verify", func() error { return v.Verify(sig, msg) }},
-				{"Verify-bad", func() error {
-					if v.Verify(sig[:len(sig)-1], msg) == nil {
-						return fmt.Errorf("truncated signature accepted")
-					}
-					return nil
-				}},
-			}
+			return desc, twice(func(tag string) []op {
+				msg := shared(gen.Bytes(rt, "msg", 200))
+				sig := tk.Must(s.Sign(msg))
+				return []op{
+					{"Sign+Verify", func() error {
+						g, err := s.Sign(msg)
+						if err != nil {
+							return err
+						}
+						return v.Verify(g, msg)
+					}},
+					{"Verify", func() error { return v.Verify(sig, msg) }},
+					{"Verify-bad", func() error {
+						if v.Verify(sig[:len(sig)-1], msg) == nil {
+							return fmt.Errorf("truncated signature accepted")
+						}
+						return nil
+					}},
+				}
+			})
 		}},
 		{"hybrid", func(rt *rapid.T) (string, []op) {
 			var h *keyset.Handle
@@ -225,88 +233,94 @@ func builders() []builder {
 			}
 			e := tk.Must(hybrid.NewHybridEncrypt(tk.Must(h.Public())))
 			d := tk.Must(hybrid.NewHybridDecrypt(h))
-			pt, info := shared(gen.Bytes(rt, "pt", 200)), shared(gen.Bytes(rt, "info", 40))
-			wantPT := append([]byte{}, pt...)
-			ct := tk.Must(e.Encrypt(pt, info))
-			return desc, []op{
-				{"Encrypt+Decrypt", func() error {
-					c, err := e.Encrypt(pt, info)
-					if err != nil {
-						return err
-					}
-					p, err := d.Decrypt(c, info)
-					if err != nil || !bytes.Equal(p, wantPT) {
-						return fmt.Errorf("decrypt gave %x, %v", p, err)
-					}
-					return nil
-				}},
-				{"Decrypt", func() error {
-					p, err := d.Decrypt(ct, info)
-					if err != nil || !bytes.Equal(p, wantPT) {
-						return fmt.Errorf("decrypt gave %x, %v", p, err)
-					}
-					return nil
-				}},
-			}
+			return desc, twice(func(tag string) []op {
+				pt, info := shared(gen.Bytes(rt, "pt", 200)), shared(gen.Bytes(rt, "info", 40))
+				wantPT := append([]byte{}, pt...)
+				ct := tk.Must(e.Encrypt(pt, info))
+				return []op{
+					{"Encrypt+Decrypt", func() error {
+						c, err := e.Encrypt(pt, info)
+						if err != nil {
+							return err
+						}
+						p, err := d.Decrypt(c, info)
+						if err != nil || !bytes.Equal(p, wantPT) {
+							return fmt.Errorf("decrypt gave %x, %v", p, err)
+						}
+						return nil
+					}},
+					{"Decrypt", func() error {
+						p, err := d.Decrypt(ct, info)
+						if err != nil || !bytes.Equal(p, wantPT) {
+							return fmt.Errorf("decrypt gave %x, %v", p, err)
+						}
+						return nil
+					}},
+				}
+			})
 		}},
 		{"prf", func(rt *rapid.T) (string, []op) {
 			kt := rapid.SampledFrom([]*tinkpb.KeyTemplate{prf.HMACSHA256PRFKeyTemplate(), prf.HKDFSHA256PRFKeyTemplate(), prf.AESCMACPRFKeyTemplate(), prf.HMACSHA512PRFKeyTemplate()}).Draw(rt, "template")
 			set := tk.Must(prf.NewPRFSet(tk.Must(keyset.NewHandle(kt))))
-			in := shared(gen.Bytes(rt, "input", 200))
-			n := uint32(rapid.IntRange(1, 16).Draw(rt, "outlen"))
-			want := tk.Must(set.ComputePrimaryPRF(in, n))
-			return "PRF " + kt.TypeUrl, []op{{"ComputePrimaryPRF", func() error {
-				o, err := set.ComputePrimaryPRF(in, n)
-				if err != nil || !bytes.Equal(o, want) {
-					return fmt.Errorf("PRF output %x (%v), sequentially %x", o, err, want)
-				}
-				return nil
-			}}}
+			return "PRF " + kt.TypeUrl, twice(func(tag string) []op {
+				in := shared(gen.Bytes(rt, "input", 200))
+				n := uint32(rapid.IntRange(1, 16).Draw(rt, "outlen"))
+				want := tk.Must(set.ComputePrimaryPRF(in, n))
+				return []op{{"ComputePrimaryPRF", func() error {
+					o, err := set.ComputePrimaryPRF(in, n)
+					if err != nil || !bytes.Equal(o, want) {
+						return fmt.Errorf("PRF output %x (%v), sequentially %x", o, err, want)
+					}
+					return nil
+				}}}
+			})
 		}},
 		{"streaming", func(rt *rapid.T) (string, []op) {
 			kt := rapid.SampledFrom([]*tinkpb.KeyTemplate{streamingaead.AES128GCMHKDF4KBKeyTemplate(), streamingaead.AES128CTRHMACSHA256Segment4KBKeyTemplate(), streamingaead.AES256GCMHKDF4KBKeyTemplate()}).Draw(rt, "template")
 			sa := tk.Must(streamingaead.New(tk.Must(keyset.NewHandle(kt))))
-			pt, aad := shared(gen.Bytes(rt, "pt", 9000)), shared(gen.Bytes(rt, "aad", 40))
-			wantPT := append([]byte{}, pt...)
-			enc := func() ([]byte, error) {
-				var buf bytes.Buffer
-				w, err := sa.NewEncryptingWriter(&buf, aad)
-				if err != nil {
-					return nil, err
+			return "streaming " + kt.TypeUrl, twice(func(tag string) []op {
+				pt, aad := shared(gen.Bytes(rt, "pt", 9000)), shared(gen.Bytes(rt, "aad", 40))
+				wantPT := append([]byte{}, pt...)
+				enc := func() ([]byte, error) {
+					var buf bytes.Buffer
+					w, err := sa.NewEncryptingWriter(&buf, aad)
+					if err != nil {
+						return nil, err
+					}
+					if _, err := w.Write(pt); err != nil {
+						return nil, err
+					}
+					if err := w.Close(); err != nil {
+						return nil, err
+					}
+					return buf.Bytes(), nil
 				}
-				if _, err := w.Write(pt); err != nil {
-					return nil, err
-				}
-				if err := w.Close(); err != nil {
-					return nil, err
-				}
-				return buf.Bytes(), nil
-			}
-			dec := func(ct []byte) error {
-				r, err := sa.NewDecryptingReader(bytes.NewReader(ct), aad)
-				if err != nil {
-					return err
-				}
-				var out bytes.Buffer
-				if _, err := out.ReadFrom(r); err != nil {
-					return err
-				}
-				if !bytes.Equal(out.Bytes(), wantPT) {
-					return fmt.Errorf("stream decrypts to different plaintext")
-				}
-				return nil
-			}
-			ct := tk.Must(enc())
-			return "streaming " + kt.TypeUrl, []op{
-				{"NewEncryptingWriter+NewDecryptingReader", func() error {
-					c, err := enc()
+				dec := func(ct []byte) error {
+					r, err := sa.NewDecryptingReader(bytes.NewReader(ct), aad)
 					if err != nil {
 						return err
 					}
-					return dec(c)
-				}},
-				{"NewDecryptingReader", func() error { return dec(ct) }},
-			}
+					var out bytes.Buffer
+					if _, err := out.ReadFrom(r); err != nil {
+						return err
+					}
+					if !bytes.Equal(out.Bytes(), wantPT) {
+						return fmt.Errorf("stream decrypts to different plaintext")
+					}
+					return nil
+				}
+				ct := tk.Must(enc())
+				return []op{
+					{"NewEncryptingWriter+NewDecryptingReader", func() error {
+						c, err := enc()
+						if err != nil {
+							return err
+						}
+						return dec(c)
+					}},
+					{"NewDecryptingReader", func() error { return dec(ct) }},
+				}
+			})
 		}},
 		{"jwt", func(rt *rapid.T) (string, []op) {
 			kind := rapid.SampledFrom([]string{"HS256", "ES256", "RawHS256"}).Draw(rt, "jwtalg")
@@ -360,25 +374,27 @@ func builders() []builder {
 			derived := rapid.SampledFrom([]*tinkpb.KeyTemplate{aead.AES128GCMKeyTemplate(), mac.HMACSHA256Tag128KeyTemplate(), signature.ED25519KeyTemplate(), daead.AESSIVKeyTemplate()}).Draw(rt, "derived")
 			kt := tk.Must(keyderivation.CreatePRFBasedKeyTemplate(prf.HKDFSHA256PRFKeyTemplate(), derived))
 			d := tk.Must(keyderivation.New(tk.Must(keyset.NewHandle(kt))))
-			salt := shared(gen.Bytes(rt, "salt", 40))
-			ser := func(h *keyset.Handle) []byte {
-				var buf bytes.Buffer
-				if err := insecurecleartextkeyset.Write(h, keyset.NewBinaryWriter(&buf)); err != nil {
-					panic(err)
+			return "DeriveKeyset -> " + derived.TypeUrl, twice(func(tag string) []op {
+				salt := shared(gen.Bytes(rt, "salt", 40))
+				ser := func(h *keyset.Handle) []byte {
+					var buf bytes.Buffer
+					if err := insecurecleartextkeyset.Write(h, keyset.NewBinaryWriter(&buf)); err != nil {
+						panic(err)
+					}
+					return buf.Bytes()
 				}
-				return buf.Bytes()
-			}
-			want := ser(tk.Must(d.DeriveKeyset(salt)))
-			return "DeriveKeyset -> " + derived.TypeUrl, []op{{"DeriveKeyset", func() error {
-				h, err := d.DeriveKeyset(salt)
-				if err != nil {
-					return err
-				}
-				if !bytes.Equal(ser(h), want) {
-					return fmt.Errorf("derived keyset differs from the sequential result")
-				}
-				return nil
-			}}}
+				want := ser(tk.Must(d.DeriveKeyset(salt)))
+				return []op{{"DeriveKeyset", func() error {
+					h, err := d.DeriveKeyset(salt)
+					if err != nil {
+						return err
+					}
+					if !bytes.Equal(ser(h), want) {
+						return fmt.Errorf("derived keyset differs from the sequential result")
+					}
+					return nil
+				}}}
+			})
 		}},
 		{"registry", func(rt *rapid.T) (string, []op) {
 			// read operations on the global registries and the serialization registry
@@ -473,143 +489,153 @@ func builders() []builder {
 				callCap = 48
 			}
 			h := tk.Must(tk.HandleFromKey(info.Key))
-			x, y := shared(gen.Bytes(rt, "x", 200)), shared(gen.Bytes(rt, "y", 40))
-			wantX := append([]byte{}, x...)
 			desc := "all-types: " + info.Desc
-			switch c {
-			case keys.AEAD:
-				a := tk.Must(aead.New(h))
-				ct := tk.Must(a.Encrypt(x, y))
-				return desc, []op{{"Encrypt+Decrypt", func() error {
-					c2, err := a.Encrypt(x, y)
-					if err != nil {
-						return err
-					}
-					p, err := a.Decrypt(c2, y)
-					if err != nil || !bytes.Equal(p, wantX) {
-						return fmt.Errorf("decrypt: %x, %v", p, err)
-					}
-					return nil
-				}}, {"Decrypt", func() error {
-					p, err := a.Decrypt(ct, y)
-					if err != nil || !bytes.Equal(p, wantX) {
-						return fmt.Errorf("decrypt: %x, %v", p, err)
-					}
-					return nil
-				}}}
-			case keys.DAEAD:
-				d := tk.Must(daead.New(h))
-				want := tk.Must(d.EncryptDeterministically(x, y))
-				return desc, []op{{"EncryptDeterministically", func() error {
-					c2, err := d.EncryptDeterministically(x, y)
-					if err != nil || !bytes.Equal(c2, want) {
-						return fmt.Errorf("ciphertext differs: %v", err)
-					}
-					return nil
-				}}, {"DecryptDeterministically", func() error {
-					p, err := d.DecryptDeterministically(want, y)
-					if err != nil || !bytes.Equal(p, wantX) {
-						return fmt.Errorf("decrypt: %v", err)
-					}
-					return nil
-				}}}
-			case keys.MAC:
-				m := tk.Must(mac.New(h))
-				want := tk.Must(m.ComputeMAC(x))
-				return desc, []op{{"ComputeMAC", func() error {
-					t2, err := m.ComputeMAC(x)
-					if err != nil || !bytes.Equal(t2, want) {
-						return fmt.Errorf("tag differs: %v", err)
-					}
-					return nil
-				}}, {"VerifyMAC", func() error { return m.VerifyMAC(want, x) }}}
-			case keys.PRF:
-				s := tk.Must(prf.NewPRFSet(h))
-				want := tk.Must(s.ComputePrimaryPRF(x, 16))
-				return desc, []op{{"ComputePrimaryPRF", func() error {
-					o, err := s.ComputePrimaryPRF(x, 16)
-					if err != nil || !bytes.Equal(o, want) {
-						return fmt.Errorf("output differs: %v", err)
-					}
-					return nil
-				}}}
-			case keys.Signature:
-				s := tk.Must(signature.NewSigner(h))
-				v := tk.Must(signature.NewVerifier(tk.Must(h.Public())))
-				sig := tk.Must(s.Sign(x))
-				return desc, []op{{"Sign+Verify", func() error {
-					g, err := s.Sign(x)
-					if err != nil {
-						return err
-					}
-					return v.Verify(g, x)
-				}}, {"Verify", func() error { return v.Verify(sig, x) }}}
-			case keys.Hybrid:
-				e := tk.Must(hybrid.NewHybridEncrypt(tk.Must(h.Public())))
-				d := tk.Must(hybrid.NewHybridDecrypt(h))
-				ct := tk.Must(e.Encrypt(x, y))
-				return desc, []op{{"Encrypt+Decrypt", func() error {
-					c2, err := e.Encrypt(x, y)
-					if err != nil {
-						return err
-					}
-					p, err := d.Decrypt(c2, y)
-					if err != nil || !bytes.Equal(p, wantX) {
-						return fmt.Errorf("decrypt: %v", err)
-					}
-					return nil
-				}}, {"Decrypt", func() error {
-					p, err := d.Decrypt(ct, y)
-					if err != nil || !bytes.Equal(p, wantX) {
-						return fmt.Errorf("decrypt: %v", err)
-					}
-					return nil
-				}}}
-			case keys.Streaming:
-				sa := tk.Must(streamingaead.New(h))
-				return desc, []op{{"NewEncryptingWriter+NewDecryptingReader", func() error {
-					var buf bytes.Buffer
-					w, err := sa.NewEncryptingWriter(&buf, y)
-					if err != nil {
-						return err
-					}
-					if _, err := w.Write(x); err != nil {
-						return err
-					}
-					if err := w.Close(); err != nil {
-						return err
-					}
-					r, err := sa.NewDecryptingReader(bytes.NewReader(buf.Bytes()), y)
-					if err != nil {
-						return err
-					}
-					var out bytes.Buffer
-					if _, err := out.ReadFrom(r); err != nil || !bytes.Equal(out.Bytes(), wantX) {
-						return fmt.Errorf("stream round trip: %v", err)
-					}
-					return nil
-				}}}
-			default: // Deriver
-				d := tk.Must(keyderivation.New(h))
-				ser := func(hh *keyset.Handle) []byte {
-					var buf bytes.Buffer
-					if err := insecurecleartextkeyset.Write(hh, keyset.NewBinaryWriter(&buf)); err != nil {
-						panic(err)
-					}
-					return buf.Bytes()
+			// the primitive(s) are created once and shared by both input sets
+			prims := map[string]any{}
+			once := func(name string, mk func() any) any {
+				if _, ok := prims[name]; !ok {
+					prims[name] = mk()
 				}
-				want := ser(tk.Must(d.DeriveKeyset(x)))
-				return desc, []op{{"DeriveKeyset", func() error {
-					hh, err := d.DeriveKeyset(x)
-					if err != nil {
-						return err
-					}
-					if !bytes.Equal(ser(hh), want) {
-						return fmt.Errorf("derived keyset differs")
-					}
-					return nil
-				}}}
+				return prims[name]
 			}
+			return desc, twice(func(tag string) []op {
+				x, y := shared(gen.Bytes(rt, "x", 200)), shared(gen.Bytes(rt, "y", 40))
+				wantX := append([]byte{}, x...)
+				switch c {
+				case keys.AEAD:
+					a := once("aead", func() any { return tk.Must(aead.New(h)) }).(tink.AEAD)
+					ct := tk.Must(a.Encrypt(x, y))
+					return []op{{"Encrypt+Decrypt", func() error {
+						c2, err := a.Encrypt(x, y)
+						if err != nil {
+							return err
+						}
+						p, err := a.Decrypt(c2, y)
+						if err != nil || !bytes.Equal(p, wantX) {
+							return fmt.Errorf("decrypt: %x, %v", p, err)
+						}
+						return nil
+					}}, {"Decrypt", func() error {
+						p, err := a.Decrypt(ct, y)
+						if err != nil || !bytes.Equal(p, wantX) {
+							return fmt.Errorf("decrypt: %x, %v", p, err)
+						}
+						return nil
+					}}}
+				case keys.DAEAD:
+					d := once("daead", func() any { return tk.Must(daead.New(h)) }).(tink.DeterministicAEAD)
+					want := tk.Must(d.EncryptDeterministically(x, y))
+					return []op{{"EncryptDeterministically", func() error {
+						c2, err := d.EncryptDeterministically(x, y)
+						if err != nil || !bytes.Equal(c2, want) {
+							return fmt.Errorf("ciphertext differs: %v", err)
+						}
+						return nil
+					}}, {"DecryptDeterministically", func() error {
+						p, err := d.DecryptDeterministically(want, y)
+						if err != nil || !bytes.Equal(p, wantX) {
+							return fmt.Errorf("decrypt: %v", err)
+						}
+						return nil
+					}}}
+				case keys.MAC:
+					m := once("mac", func() any { return tk.Must(mac.New(h)) }).(tink.MAC)
+					want := tk.Must(m.ComputeMAC(x))
+					return []op{{"ComputeMAC", func() error {
+						t2, err := m.ComputeMAC(x)
+						if err != nil || !bytes.Equal(t2, want) {
+							return fmt.Errorf("tag differs: %v", err)
+						}
+						return nil
+					}}, {"VerifyMAC", func() error { return m.VerifyMAC(want, x) }}}
+				case keys.PRF:
+					s := once("prf", func() any { return tk.Must(prf.NewPRFSet(h)) }).(*prf.Set)
+					want := tk.Must(s.ComputePrimaryPRF(x, 16))
+					return []op{{"ComputePrimaryPRF", func() error {
+						o, err := s.ComputePrimaryPRF(x, 16)
+						if err != nil || !bytes.Equal(o, want) {
+							return fmt.Errorf("output differs: %v", err)
+						}
+						return nil
+					}}}
+				case keys.Signature:
+					s := once("signer", func() any { return tk.Must(signature.NewSigner(h)) }).(tink.Signer)
+					v := once("verifier", func() any { return tk.Must(signature.NewVerifier(tk.Must(h.Public()))) }).(tink.Verifier)
+					sig := tk.Must(s.Sign(x))
+					return []op{{"Sign+Verify", func() error {
+						g, err := s.Sign(x)
+						if err != nil {
+							return err
+						}
+						return v.Verify(g, x)
+					}}, {"Verify", func() error { return v.Verify(sig, x) }}}
+				case keys.Hybrid:
+					e := once("henc", func() any { return tk.Must(hybrid.NewHybridEncrypt(tk.Must(h.Public()))) }).(tink.HybridEncrypt)
+					d := once("hdec", func() any { return tk.Must(hybrid.NewHybridDecrypt(h)) }).(tink.HybridDecrypt)
+					ct := tk.Must(e.Encrypt(x, y))
+					return []op{{"Encrypt+Decrypt", func() error {
+						c2, err := e.Encrypt(x, y)
+						if err != nil {
+							return err
+						}
+						p, err := d.Decrypt(c2, y)
+						if err != nil || !bytes.Equal(p, wantX) {
+							return fmt.Errorf("decrypt: %v", err)
+						}
+						return nil
+					}}, {"Decrypt", func() error {
+						p, err := d.Decrypt(ct, y)
+						if err != nil || !bytes.Equal(p, wantX) {
+							return fmt.Errorf("decrypt: %v", err)
+						}
+						return nil
+					}}}
+				case keys.Streaming:
+					sa := once("stream", func() any { return tk.Must(streamingaead.New(h)) }).(tink.StreamingAEAD)
+					return []op{{"NewEncryptingWriter+NewDecryptingReader", func() error {
+						var buf bytes.Buffer
+						w, err := sa.NewEncryptingWriter(&buf, y)
+						if err != nil {
+							return err
+						}
+						if _, err := w.Write(x); err != nil {
+							return err
+						}
+						if err := w.Close(); err != nil {
+							return err
+						}
+						r, err := sa.NewDecryptingReader(bytes.NewReader(buf.Bytes()), y)
+						if err != nil {
+							return err
+						}
+						var out bytes.Buffer
+						if _, err := out.ReadFrom(r); err != nil || !bytes.Equal(out.Bytes(), wantX) {
+							return fmt.Errorf("stream round trip: %v", err)
+						}
+						return nil
+					}}}
+				default: // Deriver
+					d := once("deriver", func() any { return tk.Must(keyderivation.New(h)) }).(keyderivation.KeysetDeriver)
+					ser := func(hh *keyset.Handle) []byte {
+						var buf bytes.Buffer
+						if err := insecurecleartextkeyset.Write(hh, keyset.NewBinaryWriter(&buf)); err != nil {
+							panic(err)
+						}
+						return buf.Bytes()
+					}
+					want := ser(tk.Must(d.DeriveKeyset(x)))
+					return []op{{"DeriveKeyset", func() error {
+						hh, err := d.DeriveKeyset(x)
+						if err != nil {
+							return err
+						}
+						if !bytes.Equal(ser(hh), want) {
+							return fmt.Errorf("derived keyset differs")
+						}
+						return nil
+					}}}
+				}
+			})
 		}},
 		{"handle", func(rt *rapid.T) (string, []op) {
 			m := keyset.NewManager()
@@ -697,6 +723,18 @@ func builders() []builder {
 			}
 		}},
 	}
+}
+
+// twice builds the ops for two independently drawn input sets on the same shared primitive, so
+// that concurrent calls carry DIFFERENT messages / associated data (state cached per input in a
+// primitive is only observable that way).
+func twice(mk func(tag string) []op) []op {
+	a := mk("a")
+	b := mk("b")
+	for i := range b {
+		b[i].name += "#2"
+	}
+	return append(a, b...)
 }
 
 // callCap bounds goroutines x calls for expensive key types (set by a builder, reset per case).
